@@ -9,10 +9,11 @@ UNIT = {
                   {'file': 'riscv_analysis/src/analysis/available.rs', 'item': 'fn rule_expand_address_for_load'}],
     'obligations': [
         {'id': 'values_n.claims', 'recipe': ['values-search'], 'props': ['C01', 'C06'], 'kind': 'bounded',
-         'bound': '4419 straight-line programs (every R-type operator on a 14x14 operand grid in five operand shapes incl. x0; every I-type operator; '
-                  'nine sp-arithmetic / save-restore / sub-word / pseudo-instruction sequences) x 4 initial register files, no branches or calls',
-         'clause': 'every Constant / entry-value-plus-constant claim attached after an instruction, and every stack-slot claim of such a value, '
-                   'equals what an RV32IM interpreter computes',
+         'bound': '4434 programs x 6 initial register files: every R-type operator on a 14x14 operand grid in five operand shapes incl. x0; every I-type '
+                  'operator; 25 hand-written programs with sp arithmetic, save/restore, sub-word and overlapping stores, extreme offsets, forward branches '
+                  'and joins, loops, and calls to convention-respecting functions (executed for real, one entry snapshot per activation)',
+         'clause': 'every Constant / entry-value-plus-constant claim attached before or after an executed instruction, and every stack-slot claim of such a '
+                   'value, equals what an RV32IM interpreter computes; the analysis never panics',
          'tier': 'quick'},
     ],
 }
